@@ -416,8 +416,11 @@ func ruleIsOne(c *Ctx) {
 		}
 		ix, ok := b.(*ast.IndexExpr)
 		if p.exprKey(a) == sigKey && ok && p.exprStr(ix.X) == "uint128PowersOf10" {
-			if inner, off := negOperand(p, ix.Index); inner != nil && isNeg(ix.Index) && p.exprKey(inner) == expKey && off == specBias {
-				okCmp = true
+			// the index as a linear form over the decoded exponent: exactly bias - exp
+			if terms, cst, ok := p.linForm(fd, ix.Index, r, 0); ok && len(terms) == 1 && cst.IsInt64() && cst.Int64() == specBias {
+				if coef, has := terms[expKey]; has && coef.IsInt64() && coef.Int64() == -1 {
+					okCmp = true
+				}
 			}
 		}
 		return true
